@@ -18,6 +18,8 @@ import (
 	"fmt"
 	"go/ast"
 	"go/token"
+	"go/types"
+	"os"
 	"strings"
 )
 
@@ -71,15 +73,17 @@ var flowSpecs = []flowSpec{
 
 // relevant call prefixes (callee source text).
 var flowCallPrefixes = []string{
-	"c.storedItems.", "c.cachePolicy.", "c.onExit", "c.onEvict", "c.onReject", "onEvict", "c.Metrics.", "c.getBuf.",
-	"c.isClosed.", "c.cleanupTicker.", "c.processItems", "c.keyToHash", "c.cost", "c.Clear",
-	"time.Now", "time.Until", "close", "store.", "policy.", "sm.expiryMap.", "sm.shards", "shard.", "cb",
-	"m.em.", "m.Lock", "m.Unlock", "m.RLock", "m.RUnlock", "m.shouldUpdate", "delete", "make",
-	"p.Lock", "p.Unlock", "p.evict.", "p.admit.", "p.metrics.", "p.door.", "p.freq.", "p.Increment", "p.reset",
-	"atomic.", "s.cons.", "trackAdmission", "storageBucket", "cleanupBucket", "expr.", "expiration.", "item.expiration.", "newExpTime.",
+	// methods and function-valued fields reached through a value of one of the modelled types
+	"Cache.", "defaultPolicy.", "sampledLFU.", "tinyLFU.", "lockedMap.", "shardedMap.", "expirationMap.",
+	"ringStripe.", "storeItem.", "Item.", "store.", "Time.", "time.", "atomic.",
+	// callbacks passed as parameters (canonical name of a func-typed variable) and helpers
+	"func", "close", "delete", "make", "storageBucket", "cleanupBucket", "trackAdmission",
 }
 
 func relevantCall(txt string) bool {
+	if os.Getenv("FLOW_ALL") != "" {
+		return true
+	}
 	for _, p := range flowCallPrefixes {
 		if strings.HasPrefix(txt, p) {
 			return true
@@ -91,12 +95,112 @@ func relevantCall(txt string) bool {
 type flowWalker struct {
 	pi  *pkgInfo
 	out []string
+	// func-typed local variables and parameters (callbacks), numbered in order of first appearance
+	fnIdx map[types.Object]int
 }
 
 func (w *flowWalker) emit(s string) { w.out = append(w.out, s) }
 
 func (w *flowWalker) callee(c *ast.CallExpr) string {
-	return strings.Join(strings.Fields(w.pi.src(c.Fun)), "")
+	return w.canon(c.Fun)
+}
+
+// canonType names a type independently of how variables are called: the name of the named type
+// behind any pointers (type arguments dropped), or a shape word for unnamed types.
+func canonType(t types.Type) string {
+	for {
+		p, ok := t.(*types.Pointer)
+		if !ok {
+			break
+		}
+		t = p.Elem()
+	}
+	switch x := t.(type) {
+	case *types.Named:
+		return x.Obj().Name()
+	case *types.Alias:
+		return x.Obj().Name()
+	case *types.TypeParam:
+		return x.Obj().Name()
+	case *types.Basic:
+		return x.Name()
+	case *types.Chan:
+		return "chan"
+	case *types.Slice:
+		return "[]" + canonType(x.Elem())
+	case *types.Array:
+		return "[]" + canonType(x.Elem())
+	case *types.Map:
+		return "map"
+	case *types.Signature:
+		return "func"
+	case *types.Struct:
+		return "struct"
+	case *types.Interface:
+		return "interface"
+	}
+	return "_"
+}
+
+// canon renders an expression with every local variable, parameter and receiver replaced by the
+// name of its type, so that renaming a variable does not change a flow while calling a different
+// method, field or function does.  Fields, methods, functions, constants and package-level
+// variables keep their names.
+func (w *flowWalker) canon(e ast.Expr) string {
+	switch x := e.(type) {
+	case *ast.Ident:
+		var obj types.Object
+		if o, ok := w.pi.info.Uses[x]; ok {
+			obj = o
+		} else if o, ok := w.pi.info.Defs[x]; ok {
+			obj = o
+		}
+		if v, ok := obj.(*types.Var); ok && !v.IsField() && v.Parent() != nil && v.Parent() != w.pi.pkg.Scope() && v.Parent() != types.Universe {
+			if v.Type() != nil {
+				t := canonType(v.Type())
+				if t == "func" {
+					if w.fnIdx == nil {
+						w.fnIdx = map[types.Object]int{}
+					}
+					if _, ok := w.fnIdx[obj]; !ok {
+						w.fnIdx[obj] = len(w.fnIdx) + 1
+					}
+					return fmt.Sprintf("func#%d", w.fnIdx[obj])
+				}
+				if t != "_" && t != "invalid type" {
+					return t
+				}
+			}
+		}
+		return x.Name
+	case *ast.SelectorExpr:
+		return w.canon(x.X) + "." + x.Sel.Name
+	case *ast.CallExpr:
+		args := []string{}
+		for _, a := range x.Args {
+			args = append(args, w.canon(a))
+		}
+		return w.canon(x.Fun) + "(" + strings.Join(args, ",") + ")"
+	case *ast.IndexExpr:
+		return w.canon(x.X) + "[" + w.canon(x.Index) + "]"
+	case *ast.IndexListExpr:
+		return w.canon(x.X) + "[…]"
+	case *ast.StarExpr:
+		return "*" + w.canon(x.X)
+	case *ast.ParenExpr:
+		return "(" + w.canon(x.X) + ")"
+	case *ast.UnaryExpr:
+		return x.Op.String() + w.canon(x.X)
+	case *ast.BinaryExpr:
+		return w.canon(x.X) + x.Op.String() + w.canon(x.Y)
+	case *ast.BasicLit:
+		return x.Value
+	case *ast.TypeAssertExpr:
+		return w.canon(x.X) + ".(type)"
+	case *ast.SliceExpr:
+		return w.canon(x.X) + "[:]"
+	}
+	return strings.Join(strings.Fields(w.pi.src(e)), "")
 }
 
 // expr emits the relevant actions inside an expression, in evaluation order (arguments first).
@@ -113,6 +217,13 @@ func (w *flowWalker) expr(e ast.Expr) {
 		if sel, ok := x.Fun.(*ast.SelectorExpr); ok {
 			w.expr(sel.X)
 		}
+		if fl, ok := x.Fun.(*ast.FuncLit); ok {
+			for _, a := range x.Args {
+				w.expr(a)
+			}
+			w.expr(fl)
+			return
+		}
 		for _, a := range x.Args {
 			w.expr(a)
 		}
@@ -121,7 +232,7 @@ func (w *flowWalker) expr(e ast.Expr) {
 		}
 	case *ast.UnaryExpr:
 		if x.Op == token.ARROW {
-			w.emit("recv " + strings.Join(strings.Fields(w.pi.src(x.X)), ""))
+			w.emit("recv " + w.canon(x.X))
 			return
 		}
 		w.expr(x.X)
@@ -172,8 +283,8 @@ func (w *flowWalker) stmt(st ast.Stmt) {
 		}
 		for _, l := range x.Lhs {
 			// writes of the shared maps / fields the model tracks
-			t := strings.Join(strings.Fields(w.pi.src(l)), "")
-			for _, p := range []string{"m.data[", "m.data", "m.buckets", "m.lastCleanedBucketNum", "p.keyCosts", "p.used", "p.incrs", "b[", "newBucket[", "s.data", "i.flag", "i.Cost", "victim.Conflict"} {
+			t := w.canon(l)
+			for _, p := range []string{"lockedMap.data", "expirationMap.buckets", "expirationMap.lastCleanedBucketNum", "sampledLFU.keyCosts", "sampledLFU.used", "tinyLFU.incrs", "bucket[", "ringStripe.data", "Item.flag", "Item.Cost", "Item.Conflict"} {
 				if strings.HasPrefix(t, p) {
 					w.emit("write " + p)
 					break
@@ -181,13 +292,13 @@ func (w *flowWalker) stmt(st ast.Stmt) {
 			}
 		}
 	case *ast.IncDecStmt:
-		t := strings.Join(strings.Fields(w.pi.src(x.X)), "")
-		if strings.HasPrefix(t, "p.incrs") || strings.HasPrefix(t, "hits") {
+		// counters of shared state only (fields); loop counters and other locals are not actions
+		if t := w.canon(x.X); strings.Contains(t, ".") {
 			w.emit("incdec " + t)
 		}
 	case *ast.SendStmt:
 		w.expr(x.Value)
-		w.emit("send " + strings.Join(strings.Fields(w.pi.src(x.Chan)), ""))
+		w.emit("send " + w.canon(x.Chan))
 	case *ast.GoStmt:
 		w.emit("go " + w.callee(x.Call))
 	case *ast.DeferStmt:
@@ -226,7 +337,7 @@ func (w *flowWalker) stmt(st ast.Stmt) {
 		w.emit("}")
 	case *ast.RangeStmt:
 		w.expr(x.X)
-		w.emit("range " + strings.Join(strings.Fields(w.pi.src(x.X)), "") + "{")
+		w.emit("range " + w.canon(x.X) + "{")
 		w.block(x.Body.List)
 		w.emit("}")
 	case *ast.SelectStmt:
@@ -255,7 +366,7 @@ func (w *flowWalker) stmt(st ast.Stmt) {
 			} else {
 				parts := []string{}
 				for _, e := range cc.List {
-					parts = append(parts, strings.Join(strings.Fields(w.pi.src(e)), ""))
+					parts = append(parts, w.canon(e))
 				}
 				w.emit("case " + strings.Join(parts, ",") + ":")
 			}
